@@ -79,7 +79,7 @@ def main():
     hook_commits = [c.split()[0] for c in commits if c.split(" ", 1)[1].startswith("verif hooks:")]
     m = {
         "version": 1,
-        "setup_cmd": "cd /verif/harness && CARGO_NET_OFFLINE=true cargo build --release --workspace --bins",
+        "setup_cmd": "cd /verif && ./check --setup",
         "hooks": {
             "guard": "cargo feature neumann_verif (tensor_store, graph_engine, tensor_chain)",
             "enable": "the harness workspace /verif/harness depends on the /repo crates by path with features=[\"neumann_verif\"]; every ./check invocation runs `cargo build --release -p <harness crate>` which rebuilds the /repo crates from the current working tree",
